@@ -1,7 +1,8 @@
 """Shared by C17 and C10: flatten recorded pc-pair events into the uniform records Trace_Lifecycle reads."""
 import json
 
-KEYS = dict(t="", site="", peer="", sig="", reason="", x="", n=0, m=0, b1=False, b2=False, b3=False, b4=False, evs=[])
+KEYS = dict(t="", inst="", site="", peer="", sig="", reason="", x="", n=0, m=0, b1=False, b2=False, b3=False, b4=False,
+            evs=[])
 
 SITE_MAP = {
     "nodtls.start_failed": "conn.start_failed", "nodtls.connected": "conn.connected",
@@ -91,4 +92,49 @@ def split_scenarios(path):
                 out.append(cur)
             elif cur is not None:
                 cur.append(e)
+    return out
+
+
+def flatten_c10(events):
+    """events of ONE C10 run (reset ... end) -> flat records of BOTH endpoints for Trace_LifecyclePair."""
+    out = []
+    closing = False
+    for e in events:
+        comp, ev = e.get("comp"), e.get("ev")
+        if comp == "life" and ev == "reset":
+            sc = e["scenario"]
+            c = sc["cfg"]
+            out.append(rec(t="reset", n=int(sc.get("id", 0)), site=c["mode"], b1="dc" in c["media"],
+                           b2="audio" in c["media"], b3="video" in c["media"], x=c["bundle"], sig=c["mux"],
+                           peer=c["ice"], b4=bool(c["latching"]), reason=c["compat"], inst=c["offerer"]))
+            continue
+        if comp == "life" and ev == "end":
+            out.append(rec(t="end", b1=bool(e.get("signal_ok")), b2=bool(e.get("connected")),
+                           b3=bool(e.get("released")), n=int(e.get("connect_ms", 0))))
+            continue
+        if comp == "life" and ev in ("closing", "done"):
+            closing = True
+            continue
+        if closing:
+            continue
+        inst = e.get("inst", "")
+        if comp == "pc":
+            if ev == "sig":
+                out.append(rec(t="sig", inst=inst, site=e["site"], sig=e["sig"]))
+            elif ev == "start_transport":
+                out.append(rec(t=ev, inst=inst, site=e["site"]))
+            elif ev == "dtls_connected":
+                out.append(rec(t=ev, inst=inst, site=e["site"]))
+            elif ev == "srtp_keys":
+                out.append(rec(t=ev, inst=inst, site=e.get("kind", ""), x=str(e["tx"]), reason=str(e["rx"]),
+                               sig=str(e.get("profile", ""))))
+            elif ev == "pub":
+                site = SITE_MAP.get(e["site"], e["site"])
+                out.append(rec(t=ev, inst=inst, site=site, peer=e["peer"], reason=e["reason"]))
+        elif comp == "app" and ev == "dc_open":
+            out.append(rec(t=ev, inst=inst))
+        elif comp == "life" and ev == "dc_delivery":
+            out.append(rec(t=ev, inst=inst, b1=bool(e["ok"]), b2=bool(e["ok"])))
+        elif comp == "life" and ev == "rtp_delivery":
+            out.append(rec(t=ev, inst=inst, site=e["kind"], b1=bool(e["ok"]), b2=bool(e["intact"])))
     return out
